@@ -14,9 +14,22 @@ theorem parseLoop_forced : ∀ (l : List RR) (acc : List RRset), parseLoop true 
   | nil => intro acc; simp [parseLoop]
   | cons r rest ih => intro acc; simp [parseLoop, ih]
 
+/-- TTLs as a server sends them (RFC 2181: at most 2^31-1; anything above is read as 0) -/
+def TtlOk (l : List RR) : Prop := ∀ r ∈ l, r.ttl ≤ 2147483647
+
+theorem clamp_of_ok {l : List RR} (h : TtlOk l) : l.map clampTtl = l := by
+  induction l with
+  | nil => rfl
+  | cons r rest ih =>
+    have hr : ¬ r.ttl > 2147483647 := Nat.not_lt.2 (h r (by simp))
+    simp [clampTtl, hr, ih (fun x hx => h x (by simp [hx]))]
+
+@[simp] theorem clampTtl_rdtype (r : RR) : (clampTtl r).rdtype = r.rdtype := by
+  unfold clampTtl; split <;> rfl
+
 /-- **IXFR** (`one_rr_per_rrset=True`): one rrset per record, order kept -/
-theorem parse_one_rr (l : List RR) : parseAnswer true l = l.map single := by
-  simp [parseAnswer, parseLoop_forced]
+theorem parse_one_rr (l : List RR) (h : TtlOk l) : parseAnswer true l = l.map single := by
+  simp [parseAnswer, parseLoop_forced, clamp_of_ok h]
 
 /-- the loop is compositional: the second part is read with `force_unique` on iff it was on or the first
 part held an SOA -/
@@ -46,20 +59,24 @@ theorem parseLoop_append : ∀ (l m : List RR) (f : Bool) (acc : List RRset),
 after it are read as one rrset per record, in wire order, behind what came before — so records that follow
 the final SOA of a transfer in the same message still follow it for `Inbound.process_message`. -/
 theorem parse_keeps_order_from_soa (f : Bool) (l : List RR) (s : RR) (extra : List RR) (hs : s.rdtype = soaType) :
-    parseAnswer f (l ++ s :: extra) = parseAnswer f l ++ single s :: extra.map single := by
+    parseAnswer f (l ++ s :: extra) =
+      parseAnswer f l ++ single (clampTtl s) :: (extra.map clampTtl).map single := by
   unfold parseAnswer
-  rw [parseLoop_append]
-  have : parseLoop (f || l.any fun r => r.rdtype == soaType) (parseLoop f [] l) (s :: extra) =
-      parseLoop true (parseLoop f [] l ++ [single s]) extra := by
+  rw [List.map_append, List.map_cons, parseLoop_append]
+  have : parseLoop (f || (l.map clampTtl).any fun r => r.rdtype == soaType) (parseLoop f [] (l.map clampTtl))
+        (clampTtl s :: extra.map clampTtl) =
+      parseLoop true (parseLoop f [] (l.map clampTtl) ++ [single (clampTtl s)]) (extra.map clampTtl) := by
     simp [parseLoop, hs]
   rw [this, parseLoop_forced]
   simp
 
 /-- a message that starts with the SOA (the first message of every transfer) is read record by record -/
-theorem parse_from_soa (f : Bool) (s : RR) (rest : List RR) (hs : s.rdtype = soaType) :
+theorem parse_from_soa (f : Bool) (s : RR) (rest : List RR) (hs : s.rdtype = soaType) (h : TtlOk (s :: rest)) :
     parseAnswer f (s :: rest) = single s :: rest.map single := by
   have := parse_keeps_order_from_soa f [] s rest hs
-  simpa [parseAnswer, parseLoop] using this
+  have h1 : clampTtl s = s := by have := clamp_of_ok h; simp at this; exact this.1
+  have h2 : rest.map clampTtl = rest := clamp_of_ok (fun x hx => h x (by simp [hx]))
+  simpa [parseAnswer, parseLoop, h1, h2] using this
 
 /-! ## merging preserves the records -/
 
@@ -202,10 +219,10 @@ theorem parseLoop_merge : ∀ (l : List RR) (acc : List RRset),
 
 /-- **A message without an SOA** (a continuation message of an AXFR), read with rrset merging: the rrsets
 are non-empty, carry owners and types of the records, and hold exactly the records of the message. -/
-theorem parse_soa_free (l : List RR) (hns : ∀ r ∈ l, r.rdtype ≠ soaType) (hc : Coherent l) :
+theorem parse_soa_free (l : List RR) (hns : ∀ r ∈ l, r.rdtype ≠ soaType) (hc : Coherent l) (ht : TtlOk l) :
     (∀ rs ∈ parseAnswer false l, rs.rdatas ≠ []) ∧ recsOfAll (parseAnswer false l) ≃z l := by
   have := parseLoop_merge l [] hns (by simp) (by simpa [recsOfAll_nil] using hc)
-  simpa [parseAnswer, recsOfAll_nil] using this
+  simpa [parseAnswer, recsOfAll_nil, clamp_of_ok ht] using this
 
 /-! ## transfers read from the wire -/
 
@@ -225,19 +242,20 @@ theorem rrsets_of_parse_ok {o : Name} {l : List RR} {res : List RRset}
 /-- the continuation messages of an AXFR (no SOA in them), read from the wire, one after the other -/
 theorem parse_mids {o : Name} : ∀ (mids : List WireMsg),
     (∀ m ∈ mids, ∀ r ∈ m.recs, r.rdtype ≠ soaType ∧ isSubdomain r.owner o = true) →
-    Coherent (mids.flatMap (·.recs)) →
+    Coherent (mids.flatMap (·.recs)) → TtlOk (mids.flatMap (·.recs)) →
     BodyOk o (mids.flatMap fun m => parseAnswer false m.recs) ∧
       recsOfAll (mids.flatMap fun m => parseAnswer false m.recs) ≃z mids.flatMap (·.recs) := by
   intro mids
   induction mids with
-  | nil => intro _ _; exact ⟨fun _ h => by simp at h, by simp [recsOfAll_nil, Zone.equiv_refl]⟩
+  | nil => intro _ _ _; exact ⟨fun _ h => by simp at h, by simp [recsOfAll_nil, Zone.equiv_refl]⟩
   | cons m rest ih =>
-    intro hok hc
-    simp only [List.flatMap_cons] at hc ⊢
+    intro hok hc ht
+    simp only [List.flatMap_cons] at hc ht ⊢
     have h1 := parse_soa_free m.recs (fun r hr => (hok m (by simp) r hr).1)
-      (hc.subset fun r hr => List.mem_append.2 (Or.inl hr))
+      (hc.subset fun r hr => List.mem_append.2 (Or.inl hr)) (fun r hr => ht r (List.mem_append.2 (Or.inl hr)))
     have hb1 := rrsets_of_parse_ok (o := o) (hok m (by simp)) h1.1 h1.2
     have h2 := ih (fun m' hm' => hok m' (by simp [hm'])) (hc.subset fun r hr => List.mem_append.2 (Or.inr hr))
+      (fun r hr => ht r (List.mem_append.2 (Or.inr hr)))
     refine ⟨fun rs hrs => ?_, ?_⟩
     · rcases List.mem_append.1 hrs with h | h
       · exact hb1 rs h
